@@ -20,7 +20,7 @@ func init() {
 		Patterns: []string{"./ring", "./loser"},
 		Run:      runC01,
 		Explanation: "Decides structural necessary conditions of 'key lookup returns the consistent-hash replica set with its exact quorum slack': (R1) the Operation bitmap: NewOp's extension loop covers every declared InstanceState, encode and decode use the same shifts, the two halves cannot overlap, allStatesRingOperation has every state healthy and no extension bit; (R2) Get and GetWithOptions both return getReplicationSetForKey, whose result is exactly Filter(findInstancesForKey(key, op, …), op, …) under one read-lock hold; " +
-			"(R3) the walk's bookkeeping: a newly seen instance is appended ⇔ the caller's filter (if any) includes it — under no other condition — and the set is extended ⇔ the operation declares that instance's state as extending; the instance examined is the owner of the current token; zone exhaustion counts all instances of the zone; (R4) the default strategy computes the quorum before removing unhealthy instances, over max(RF, walked), fails ⇔ healthy < quorum and returns slack = healthy − quorum. R2 also requires the replication factor given to Filter to be the caller's or the configured value on every path (never a derived quantity); R4 also requires an instance to stay in the set ⇔ InstanceDesc.IsHealthy(op, timeout, now), which is state-accepted ∧ heartbeat-fresh. Also: (R5) the token→owner index is rebuilt from the descriptor on every topology change and never modified (shared with C13.R7); (R6) every token of the ring reaches the sorted lists the walk searches: the merges that build them drop nothing, 2^32-1 included (shared with C14.R3 and C14.R7). NOT decided: the successor search, walk termination and zone counters arithmetic, the majority formula's value, the consequence for added/removed instances.",
+			"(R3) the walk's bookkeeping: a newly seen instance is appended ⇔ the caller's filter (if any) includes it — under no other condition — and the set is extended ⇔ the operation declares that instance's state as extending; the instance examined is the owner of the current token; zone exhaustion counts all instances of the zone; (R4) the default strategy computes the quorum before removing unhealthy instances, over max(RF, walked), fails ⇔ healthy < quorum and returns slack = healthy − quorum. R2 also requires the replication factor given to Filter to be the caller's or the configured value on every path (never a derived quantity); R4 also requires an instance to stay in the set ⇔ InstanceDesc.IsHealthy(op, timeout, now), which is state-accepted ∧ heartbeat-fresh. Also: (R5) the token→owner index is rebuilt from the descriptor on every topology change and never modified (shared with C13.R7); (R6) every token of the ring reaches the sorted lists the walk searches: the merges that build them drop nothing, 2^32-1 included (shared with C14.R3 and C14.R7). (R7 also) every access to the walk's per-zone counters is indexed by the zone's position in this ring's own zone list, never by a position stored in the token→owner entry it shares with its subrings. NOT decided: the successor search, walk termination and zone counters arithmetic, the majority formula's value, the consequence for added/removed instances.",
 	}
 }
 
@@ -817,7 +817,6 @@ func c01SearchTokenAs(c *core.Ctx, pkg *packages.Package, R string) {
 	res := t.Run()
 	c.Check(res.OK() && g.Before(inc[0], reset[0]) || res.OK() && !g.Before(reset[0], inc[0]), R, "func=searchToken", fn.Pos(), "i = BinarySearch(tokens, key); i+1 ⇔ found; then i = 0 ⇔ i ≥ len(tokens); i returned: "+res.Summary(), res.Rows)
 }
-
 
 // readsOwnerEntryPosition: e selects, from a value of the token→owner entry type (instanceInfo), a field other
 // than Zone / InstanceID.
